@@ -242,7 +242,16 @@ func (g *gen) execInstr(in ssa.Instruction, st *state) {
 		g.setHeap(st, name, g.heapSort(name), app("store", h, r, app("(as const (Array Int "+g.sorts.sortOf(et)+"))", g.sorts.zero(et))))
 		g.setVal(x, app("mk-slice", r, "0", ln))
 	case *ssa.MakeMap:
-		g.vals[x] = g.newRef(st, "map")
+		r := g.newRef(st, "map")
+		g.vals[x] = r
+		if mt, ok := x.Type().Underlying().(*types.Map); ok {
+			if _, present, ok := g.mapHeaps(st, mt); ok {
+				// a new map holds nothing
+				ks := g.sorts.sortOf(mt.Key())
+				_, pn := mapHeapNames(mt)
+				g.setHeap(st, pn, "(Array Int (Array "+ks+" Bool))", app("store", present, r, "((as const (Array "+ks+" Bool)) false)"))
+			}
+		}
 	case *ssa.MakeChan:
 		g.vals[x] = g.newRef(st, "chan")
 	case *ssa.Extract:
@@ -279,10 +288,7 @@ func (g *gen) execInstr(in ssa.Instruction, st *state) {
 	case *ssa.Store:
 		g.execStore(x, st)
 	case *ssa.MapUpdate:
-		if g.opts.safety {
-			m := g.val(st, x.Map)
-			g.obligeAssume("nil", "map "+g.exprText(x.Map), x.Pos(), sNot(sEq(m, "0")), nil)
-		}
+		g.execMapUpdate(x, st)
 	case *ssa.Select, *ssa.Send:
 		g.note("channel operation in %s: heap havocked", g.vc.Func)
 		g.havocAll(st)
@@ -490,20 +496,78 @@ func (g *gen) execLookup(x *ssa.Lookup, st *state) {
 		g.setVal(x, app("str.to_code", app("str.at", v, idx)))
 		return
 	}
-	// map lookup: uninterpreted in (map, key, map-version)
 	mt := x.X.Type().Underlying().(*types.Map)
+	m := g.val(st, x.X)
+	if vals, present, ok := g.mapHeaps(st, mt); ok {
+		// modelled map: value array and presence array per map object
+		k := g.val(st, x.Index)
+		isIn := g.define("mapok", "Bool", sAnd(sNot(sEq(m, "0")), app("select", app("select", present, m), k)))
+		res := g.define("mapval", g.sorts.sortOf(mt.Elem()), sIte(isIn, app("select", app("select", vals, m), k), g.sorts.zero(mt.Elem())))
+		g.assumeAllocated(st, res, mt.Elem())
+		if x.CommaOk {
+			g.tuples[x] = []string{res, isIn}
+		} else {
+			g.vals[x] = res
+		}
+		return
+	}
+	// map lookup: uninterpreted in (map, key, map-version)
 	vs := g.sorts.sortOf(mt.Elem())
 	res := g.newConst("mapval", vs)
 	g.assumeAllocated(st, res, mt.Elem())
 	if x.CommaOk {
 		ok := g.newConst("mapok", "Bool")
 		g.assert(sImp(sNot(ok), sEq(res, g.sorts.zero(mt.Elem()))))
-		g.assert(sImp(sEq(g.val(st, x.X), "0"), sNot(ok)))
+		g.assert(sImp(sEq(m, "0"), sNot(ok)))
 		g.tuples[x] = []string{res, ok}
 	} else {
-		g.assert(sImp(sEq(g.val(st, x.X), "0"), sEq(res, g.sorts.zero(mt.Elem()))))
+		g.assert(sImp(sEq(m, "0"), sEq(res, g.sorts.zero(mt.Elem()))))
 		g.vals[x] = res
 	}
+}
+
+// mapHeaps: maps with string or integer keys are modelled as two heap arrays indexed by the map object:
+// key -> value and key -> present. Other key types stay unmodelled (lookups unconstrained).
+func mapHeapNames(mt *types.Map) (string, string) {
+	return "M." + typeKey(mt), "MP." + typeKey(mt)
+}
+
+func (g *gen) mapModelled(mt *types.Map) bool {
+	ks := g.sorts.sortOf(mt.Key())
+	return ks == "String" || ks == "Int"
+}
+
+func (g *gen) mapHeaps(st *state, mt *types.Map) (string, string, bool) {
+	if !g.mapModelled(mt) {
+		return "", "", false
+	}
+	ks, vs := g.sorts.sortOf(mt.Key()), g.sorts.sortOf(mt.Elem())
+	vn, pn := mapHeapNames(mt)
+	g.heapKinds[vn] = ""
+	vals := g.heapVar(st, vn, "(Array Int (Array "+ks+" "+vs+"))")
+	present := g.heapVar(st, pn, "(Array Int (Array "+ks+" Bool))")
+	return vals, present, true
+}
+
+func (g *gen) execMapUpdate(x *ssa.MapUpdate, st *state) {
+	m := g.val(st, x.Map)
+	if g.opts.safety {
+		g.obligeAssume("nil", "map "+g.exprText(x.Map), x.Pos(), sNot(sEq(m, "0")), nil)
+	}
+	mt := x.Map.Type().Underlying().(*types.Map)
+	vals, present, ok := g.mapHeaps(st, mt)
+	if !ok {
+		return
+	}
+	if g.opts.frames {
+		vn, _ := mapHeapNames(mt)
+		g.frameObject(st, vn, m, x, g.exprText(x.Map)+"[...] =")
+	}
+	k, v := g.val(st, x.Key), g.val(st, x.Value)
+	ks, vs := g.sorts.sortOf(mt.Key()), g.sorts.sortOf(mt.Elem())
+	vn, pn := mapHeapNames(mt)
+	g.setHeap(st, vn, "(Array Int (Array "+ks+" "+vs+"))", app("store", vals, m, app("store", app("select", vals, m), k, v)))
+	g.setHeap(st, pn, "(Array Int (Array "+ks+" Bool))", app("store", present, m, app("store", app("select", present, m), k, "true")))
 }
 
 func (g *gen) execSlice(x *ssa.Slice, st *state) {
